@@ -9,6 +9,7 @@ into n0dict/n0list objects with n0dict.convert_recursively (every container tagg
 """
 import copy
 import json
+import math
 import re
 
 from harness import core
@@ -18,8 +19,15 @@ KEYS = ["a", "b", "C", "k", "f", "name", "id", "Parm", "Value", "w"]
 CASELESS_TWINS = [("Maße", "Masse"), ("ſ", "s"), ("ς", "σ"), ("ﬁ", "fi")]  # all invariant under str.lower()
 SETTERS = ["types", "delta", "equal", "records", "elements", "place"]
 STR_LEAVES = ["a", "A", "b", "x y", "1", "2", "1.0", "None", "True", "é", "it's", 'q"', "[1]", "", "Ab", "aB", "10"]
-INT_LEAVES = [0, 1, -1, 2, 7, 10, 255, -12, 12345678901234567890]
-FLT_LEAVES = [0.5, 1.0, 2.25, -3.75, 2.0, 10.5, 1e20]
+# ints beyond the range of a float (the numeric-delta detail must not turn a verdict into an exception, fix C07-d)
+INT_LEAVES = [0, 1, -1, 2, 7, 10, 255, -12, 12345678901234567890, 10**400, -(10**400), 10**400 + 1]
+# non-finite floats and both float zeros are generated: inf is inside the model; nan (nan != nan) and -0.0 (0.0 == -0.0)
+# are outside it (floats are opaque lexemes there: the driver answers `unsupported`), the C evaluators judge them
+FLT_LEAVES = [0.5, 1.0, 2.25, -3.75, 2.0, 10.5, 1e20, 0.0, 1e308]
+FLT_ODD = [-0.0, float("inf"), float("-inf"), float("nan"), 0.0]
+# values of the key fields of generated keyed records: different types with one str() (7/'7', None/'None', True/'True',
+# 1.0/'1.0', 1/True/1.0) and texts that imitate the separators of the former "field=value;field=value" key
+KEY_VALUES = ["1", "2", "3", "4", "5", "6", 7, 8, "7", 1, None, "None", True, "True", 1.0, "1.0", "", "1;k=2", "2;id=1", "1;f=", '"1"']
 TR_NAMES = ["id", "lower", "const", "trunc"]
 
 
@@ -47,7 +55,7 @@ def tr_const(v):
 
 
 def tr_trunc(v):
-    return int(v) if type(v) is float else v
+    return int(v) if type(v) is float and math.isfinite(v) else v
 
 
 TR = {"id": tr_id, "lower": tr_lower, "const": tr_const, "trunc": tr_trunc}
@@ -444,7 +452,7 @@ def gen_leaf(rng, collide=True):
     if k < 0.65:
         return rng.choice(INT_LEAVES)
     if k < 0.78:
-        return rng.choice(FLT_LEAVES)
+        return rng.choice(FLT_ODD if k > 0.76 else FLT_LEAVES)
     if k < 0.88:
         return rng.choice([True, False])
     return None
@@ -684,15 +692,21 @@ def gen_record_payload(rng, depth, nested_keyed, inner=False):
     return out
 
 
-def gen_keyed_list(rng, depth, fields, nested_keyed=True):
+def gen_keyed_list(rng, depth, fields, nested_keyed=True, values=None):
+    """records with pairwise different composite keys (spec_key: type-aware).  Key field values come from
+    KEY_VALUES: an int and a str may share a text, a value may contain ';field='; now and then a record lacks one of
+    the key fields (so that {'id': '1;k=2'} and {'id': '1', 'k': '2'}, {'id': '1'} and {'k': '1'} occur)"""
+    values = values or KEY_VALUES
     n = rng.choice([0, 1, 2, 3, 4, 5])
     seen, out = set(), []
     for _ in range(n):
-        kv = tuple(rng.choice(["1", "2", "3", "4", "5", "6", 7, 8]) for _ in fields)
-        if tuple(map(str, kv)) in seen:
-            continue
-        seen.add(tuple(map(str, kv)))
+        kv = [rng.choice(values) for _ in fields]
         rec = dict(zip(fields, kv))
+        if len(fields) > 1 and rng.random() < 0.2:
+            del rec[rng.choice(fields)]  # any one of them: {'id': '1'} and {'k': '1'} must not meet either
+        if spec_key(rec, fields) in seen:
+            continue
+        seen.add(spec_key(rec, fields))
         rec.update(gen_record_payload(rng, depth, nested_keyed))
         items = list(rec.items())
         rng.shuffle(items)
@@ -708,9 +722,9 @@ def mutate_keyed(rng, lst, fields, depth):
         if op < 0.25 and lst:
             del lst[rng.randrange(len(lst))]
         elif op < 0.45:
-            keys = {tuple(str(r.get(f)) for f in fields) for r in lst}
-            kv = tuple(rng.choice(["1", "2", "3", "4", "5", "6", "9", "10"]) for _ in fields)
-            if kv not in keys:
+            keys = {spec_key(r, fields) for r in lst}
+            kv = tuple(rng.choice(KEY_VALUES + ["9", "10", 9]) for _ in fields)
+            if spec_key(dict(zip(fields, kv)), fields) not in keys:
                 rec = dict(zip(fields, kv))
                 rec.update(gen_record_payload(rng, depth, True))
                 lst.insert(rng.randrange(len(lst) + 1), rec)
@@ -765,7 +779,7 @@ def tree_candidates(t):
                 yield t[:i] + [c] + t[i + 1 :]
     elif isinstance(t, str) and t not in ("", "a"):
         yield "a"
-    elif isinstance(t, (int, float)) and not isinstance(t, bool) and t not in (0, 1):
+    elif isinstance(t, (int, float)) and not isinstance(t, bool) and t not in (0, 1) and not (isinstance(t, float) and (t != t or t in (float("inf"), float("-inf")))):
         yield 1
 
 
@@ -837,10 +851,11 @@ def generic_replay(rp, evaluators):
 # dictionaries inside nested lists whatever the order of their keys: item_key)
 # ---------------------------------------------------------------------------
 def spec_key(item, fields):
+    """independent reading of 'the same composite key': a record is identified by the (name, type, value) of its key
+    fields that are present - NOT by a text of them (7 and '7', None and 'None' are different keys, a value cannot
+    imitate a further field); any other item by its type and value (item_key)"""
     if isinstance(item, dict):
-        if not fields:
-            return ("rec", "")
-        return ("rec", ";".join("%s=%s" % (f, str(item[f])) for f in fields if f in item))
+        return ("rec", tuple((f, item_key(item[f])) for f in dict.fromkeys(fields) if f in item))
     return ("val", item_key(item))
 
 
